@@ -608,7 +608,11 @@ func (s *Sim) checkShadow(m *txMeta, p *Pkt, in *PktInfo, mo *MsgObs, ack AckInf
 		if v.Panic != "" && in.ToOrbiter {
 			// (a packet that is not for the orbiter and makes the wrapped application panic is C07's business:
 			// with and without the middleware it must panic alike)
-			s.violate("C14", "U1-no-panic", "shadow: "+oneLine(v.Panic), fmt.Sprintf("packet op=%d panicked in shadow variant %s: %.300s", p.Origin, v.Name, v.Panic))
+			fp := "shadow: " + oneLine(v.Panic)
+			if strings.Contains(v.Panic, "is not a module account") {
+				fp = "module-address-holds-a-plain-account (shadow)"
+			}
+			s.violate("C14", "U1-no-panic", fp, fmt.Sprintf("packet op=%d panicked in shadow variant %s: %.300s", p.Origin, v.Name, v.Panic))
 		}
 	}
 	orbS, dustS := s.Env.Orbiter.String(), s.Env.Dust.String()
